@@ -183,3 +183,125 @@ def random_spec(rng: random.Random, *, variants=None, autos='random', mode=None,
     else:
         spec['rake'] = {'num': 0, 'den': 1, 'cap': -1, 'nfnd': False}
     return spec
+
+
+def random_custom_spec(rng: random.Random, *, autos='random', mode=None, max_n=None, stacks='mixed', no_autos=(), **_ignored) -> dict:
+    """a user-defined street list (the quantifiers of C01, C07, C10 name them): flop-like, stud-like, draw-like and mixed
+    games with up and down cards, draws, board cards and burns in unusual combinations"""
+    fam = rng.choice(['flop', 'stud', 'draw', 'mixed', 'mixed'])
+    n = rng.randint(2, min(max_n or 6, 6))
+    sb = rng.choice([1, 2, 5])
+    small, big = 2 * sb, 4 * sb
+    structure = rng.choice(['Fixed-limit', 'Pot-limit', 'No-limit'])
+    cap = 4 if structure == 'Fixed-limit' else rng.choice([-1, -1, 3])
+    deck = 'STANDARD'
+    streets = []
+    bringin = 0
+    blinds = [0] * n
+    antes = [0] * n
+
+    def S(burn, hole, board, draw, opening, minbet):
+        return {'burn': burn, 'hole': list(hole), 'board': board, 'draw': draw, 'opening': opening, 'minbet': minbet, 'maxcnt': cap}
+    if fam == 'flop':
+        k = rng.choice([2, 2, 3, 4])
+        bl = rng.choice([(3, 1, 1), (3, 1, 1), (2, 1), (3, 2), (1, 1, 1, 1, 1), (5,), (3,)])
+        streets.append(S(rng.random() < 0.3, [False] * k, 0, False, 'Position', small))
+        for j, b in enumerate(bl):
+            streets.append(S(rng.random() < 0.8, [], b, False, 'Position', small if j < len(bl) / 2 else big))
+        if k == 4:
+            types = rng.choice([['Omaha'], ['Omaha', 'Omaha8'], ['StandardHigh']])
+        elif k == 2:
+            types = rng.choice([['StandardHigh'], ['Greek'], ['StandardHigh', 'EightOrBetter'], ['StandardLow']])
+        else:
+            types = rng.choice([['StandardHigh'], ['StandardHigh', 'EightOrBetter']])
+        if sum(bl) < 3 and 'Greek' in types or sum(bl) + k < 5 or (k == 4 and sum(bl) < 3):
+            types = ['StandardHigh']
+            if sum(bl) + k < 5:
+                streets.append(S(True, [], 5 - sum(bl) - k, False, 'Position', big))
+        blinds = [sb, 2 * sb] + [0] * (n - 2)
+    elif fam == 'stud':
+        first = rng.choice([[False, False, True], [False, True], [True, True, False], [False, True, True], [True]])
+        more = rng.randint(1, 4)
+        last_down = rng.random() < 0.5
+        total = len(first) + more + (1 if last_down else 0)
+        while total < 5:
+            more += 1
+            total += 1
+        low = rng.random() < 0.4
+        bringin = rng.choice([0, 1, max(1, small // 2)])
+        if bringin >= small:
+            bringin = small - 1
+        antes = [rng.choice([1, 1, 2])] * n
+        streets.append(S(rng.random() < 0.7, first, 0, False, 'High card' if low else 'Low card', small))
+        for j in range(more):
+            streets.append(S(rng.random() < 0.7, [True], 0, False, rng.choice(['Low hand'] if low else ['High hand', 'High hand', 'Position']),
+                             small if j < 1 else big))
+        if last_down:
+            streets.append(S(rng.random() < 0.7, [False], 0, False, 'Low hand' if low else 'High hand', big))
+        if low:
+            types = rng.choice([['Regular'], ['StandardLow']])
+            if types == ['Regular']:
+                deck = 'REGULAR'
+        else:
+            types = rng.choice([['StandardHigh'], ['StandardHigh', 'EightOrBetter']])
+        n = min(n, 52 // (total + 1))
+    elif fam == 'draw':
+        k = rng.choice([5, 5, 4])
+        draws = rng.randint(1, 3)
+        streets.append(S(rng.random() < 0.5, [False] * k, 0, False, 'Position', small))
+        for j in range(draws):
+            streets.append(S(rng.random() < 0.7, [], 0, True, 'Position', small if j < draws / 2 else big))
+        types = rng.choice([['StandardLow'], ['StandardHigh'], ['Regular']]) if k == 5 else rng.choice([['Badugi'], ['StandardBadugi']])
+        if types == ['Regular']:
+            deck = 'REGULAR'
+        blinds = [sb, 2 * sb] + [0] * (n - 2)
+    else:
+        # mixed: some hole cards face up, draws that must keep the facing of what was thrown away, a shared card, burns anywhere
+        k = rng.choice([4, 5])
+        first = [rng.random() < 0.45 for _ in range(k)]
+        streets.append(S(rng.random() < 0.5, first, 0, False, 'Position', small))
+        for j in range(rng.randint(1, 2)):
+            streets.append(S(rng.random() < 0.6, [], rng.choice([0, 0, 1]), True, 'Position', small))
+        if rng.random() < 0.5:
+            streets.append(S(rng.random() < 0.6, [rng.random() < 0.5], rng.choice([0, 1]), False, rng.choice(['Position', 'High hand']), big))
+        if rng.random() < 0.5:
+            streets.append(S(rng.random() < 0.6, [], 1, False, 'Position', big))
+        types = rng.choice([['StandardHigh'], ['StandardLow'], ['StandardHigh', 'EightOrBetter']]) if k == 5 else ['Badugi']
+        blinds = [sb, 2 * sb] + [0] * (n - 2)
+        if rng.random() < 0.4:
+            antes = [1] * n
+    n = max(2, n)
+    blinds = (blinds + [0] * n)[:n]
+    antes = (antes + [0] * n)[:n]
+    if fam != 'stud' and n == 2:
+        blinds = [sb, 2 * sb]
+    spec = {'variant': 'custom', 'n': n, 'seed': rng.getrandbits(32), 'shufA': rng.randint(1, 52), 'shufB': rng.randint(0, 52),
+            'streets': streets, 'types': types, 'deck': deck, 'structure': structure, 'family': fam}
+    if autos == 'random':
+        r = rng.random()
+        spec['autos'] = ([a.value for a in ALL_AUTOS] if r < 0.25 else [] if r < 0.4 else
+                         [a.value for a in ALL_AUTOS if rng.random() < 0.6])
+    elif autos == 'all':
+        spec['autos'] = [a.value for a in ALL_AUTOS]
+    elif autos == 'none':
+        spec['autos'] = []
+    else:
+        spec['autos'] = list(autos)
+    spec['autos'] = [a for a in spec['autos'] if a not in no_autos]
+    spec['mode'] = mode or rng.choice('TC')
+    spec['antes'] = antes
+    spec['trim'] = rng.random() < 0.5
+    spec['blinds'] = blinds
+    spec['bringin'] = bringin
+    spec['sb'], spec['bb'] = small, big
+    unit = 2 * sb
+    if stacks == 'short':
+        st = [rng.randint(1, 8 * unit) for _ in range(n)]
+    elif stacks == 'deep':
+        st = [rng.randint(30 * unit, 100 * unit) for _ in range(n)]
+    else:
+        st = [rng.choice([rng.randint(1, 4 * unit), rng.randint(10 * unit, 60 * unit)]) for _ in range(n)]
+    spec['stacks'] = st
+    spec['boards0'] = rng.choice([1, 1, 1, 2]) if any(s['board'] for s in streets) and n <= 4 else 1
+    spec['rake'] = {'num': 0, 'den': 1, 'cap': -1, 'nfnd': False}
+    return spec
